@@ -1,17 +1,16 @@
 #!/bin/bash
-# tools/seedtest.sh <seeded-dir> [tier] : apply the seeded change to /repo, run the property's check, undo.
+# tools/seedtest.sh <seeded-dir> [tier] : run the property's check against a scratch copy of /repo's
+# working tree with the seeded change applied (VERIF_REPO; /repo itself is not touched).
 set -u
 D=$1; TIER=${2:-quick}
 PROP=$(basename "$D" | cut -d- -f1)
-cd /repo || exit 9
-if [ -n "$(git status --porcelain)" ]; then echo "REPO DIRTY"; exit 9; fi
-git apply "/verif/$D/patch.diff" || { echo "PATCH DOES NOT APPLY: $D"; exit 9; }
+S=$(mktemp -d /tmp/seedrepo.XXXXXX)
+trap 'rm -rf "$S" /tmp/seedtest.$$.log' EXIT
+rsync -a --exclude .git /repo/ "$S"/
+( cd "$S" && git init -q . >/dev/null 2>&1; git apply "/verif/$D/patch.diff" ) || { echo "PATCH DOES NOT APPLY: $D"; exit 9; }
 cd /verif
-./check "$PROP" "$TIER" > /tmp/seedtest.$$.log 2>&1
+VERIF_REPO="$S" VERIF_OUT_DIR="$S/out" ./check "$PROP" "$TIER" > /tmp/seedtest.$$.log 2>&1
 rc=$?
-git -C /repo checkout -- . 
 nv=$(grep -c '^VIOLATION' /tmp/seedtest.$$.log)
 echo "$D: exit=$rc violations=$nv $(grep -m1 'sig=' /tmp/seedtest.$$.log | cut -c1-200)"
 tail -1 /tmp/seedtest.$$.log
-rm -f /tmp/seedtest.$$.log
-rm -rf /verif/replays/$PROP
